@@ -9,7 +9,7 @@ package redblacktree
 //@ ghost field Tree.nodes map like Root
 //@ ghost field Tree.rank mapfrom Comparator int
 //@ ghost field Tree.n int
-//@ ghost field Node.tr ref
+//@ ghost field Node.tr ptr Tree
 //@ ghost field Node.pos int
 //@ ghost field Node.a int
 //@ ghost field Node.b int
@@ -51,8 +51,9 @@ package redblacktree
 //@ pred RBok(x) := x.color || (Blk(x.Left) && Blk(x.Right))
 //@ -- ... except that the red node v may hang under a red parent
 //@ pred RBex(x, v) := x.color || ((x.Left == v || Blk(x.Left)) && (x.Right == v || Blk(x.Right)))
-//@ pred CInv(t) := forall x like t.Root :: x.tr == t ==> BHok(x) && RBok(x)
-//@ pred CPre(t, v) := !v.color && (forall x like t.Root :: x.tr == t ==> BHok(x) && (x != v.Parent ==> RBok(x)) && (x == v.Parent ==> RBex(x, v)))
+//@ pred NoDead(t) := forall x like t.Root :: x.tr == t ==> !x.dead
+//@ pred CInv(t) := (forall x like t.Root :: x.tr == t ==> BHok(x) && RBok(x)) && NoDead(t)
+//@ pred CPre(t, v) := !v.color && (forall x like t.Root :: x.tr == t ==> BHok(x) && (x != v.Parent ==> RBok(x)) && (x == v.Parent ==> RBex(x, v))) && NoDead(t)
 //@ pred Uncle(v) := ite(v.Parent == v.Parent.Parent.Left, v.Parent.Parent.Right, v.Parent.Parent.Left)
 //@ -- abstract view: the ascending entry sequence (KeyAt(i), ValAt(i)), and the finite map Has/Val it denotes
 //@ pred ValAt(t, i) := t.nodes[i].Value
@@ -428,7 +429,7 @@ package redblacktree
 //@     invariant forall i :: 0 <= i && i < node.a ==> tree.Comparator(key, tree.nodes[i].Key) > 0
 //@     invariant forall i :: node.b < i && i < tree.size ==> tree.Comparator(key, tree.nodes[i].Key) < 0
 //@     invariant !loop ==> fresh(insertedNode) && insertedNode != nil && insertedNode.Key == key && insertedNode.Value == value && !insertedNode.color && insertedNode.Left == nil && insertedNode.Right == nil && insertedNode.Parent == nil
-//@       && insertedNode.tr == nil && insertedNode.bh == 0
+//@       && insertedNode.tr == nil && insertedNode.bh == 0 && !insertedNode.dead
 //@     invariant !loop ==> (node.Left == insertedNode && old(node.Left) == nil && node.Right == old(node.Right) && tree.Comparator(key, node.Key) < 0)
 //@       || (node.Right == insertedNode && old(node.Right) == nil && node.Left == old(node.Left) && tree.Comparator(key, node.Key) > 0)
 //@     decreases ite(loop, node.b - node.a + 2, 0)
@@ -436,10 +437,57 @@ package redblacktree
 //@ -- Remove: delete the entry equivalent to `key`, if any (entries keep their order; node identities may change
 //@ -- because a two-children node takes over its predecessor's entry)
 //@ func Tree.Remove
-//@   trusted
 //@   requires Inv(tree)
+//@   requires internal CInv(tree)
 //@   modifies tree.Root, tree.size, tree.n, tree.nodes, tree.rank
-//@   modifies each x like tree.Root where x.tr == tree : x.Left, x.Right, x.Parent, x.a, x.b, x.color, x.Key, x.Value, x.pos, x.tr
+//@   modifies each x like tree.Root where x.tr == tree : x.Left, x.Right, x.Parent, x.a, x.b, x.color, x.Key, x.Value, x.pos, x.tr, x.bh, x.dead
+//@   -- the black node about to be unlinked is exempted from the colour layer; its bh becomes that of its replacement
+//@   at before deleteCase1#1: arg1.dead := true
+//@   at before deleteCase1#1: arg1.bh := arg1.bh - 1
+//@   -- the colour layer right after the fix-up, clause by clause (the unlinked node is the only dead one)
+//@   assert after deleteCase1#1: forall x like tree.Root :: x.tr == tree && x.dead ==> x == arg1
+//@   assert after deleteCase1#1: forall x like tree.Root :: x.tr == tree && x != arg1 ==> x.bh >= 0 && x.bh == Col(x) + HB(x.Left)
+//@   assert after deleteCase1#1: forall x like tree.Root :: x.tr == tree && x != arg1 ==> x.bh == Col(x) + HB(x.Right)
+//@   assert after deleteCase1#1: forall x like tree.Root :: x.tr == tree && x != arg1 ==> RBok(x)
+//@   assert after deleteCase1#1: arg1.bh == HB(child) && arg1.color == Blk(child) && (child != nil ==> child.tr == tree && child.Parent == arg1 && !child.color && child.bh == 0)
+//@   -- the unlinked node still carries its own local shape facts (its fields are not written by the unlinking)
+//@   assert exit: old(Has(tree, key)) ==> node != nil && node.a <= node.pos && node.pos <= node.b && (node.Left == nil ==> node.a == node.pos) && (node.Right == nil ==> node.b == node.pos) && (node.Parent == nil ==> node.a == 0 && node.b == tree.n - 1) && (node.Left == nil || node.Right == nil)
+//@   assert exit: old(Has(tree, key)) ==> 0 <= node.pos && node.pos < tree.n && tree.nodes[node.pos] == node && node.tr == tree && (forall x like tree.Root :: x.tr == tree && x != node ==> x.pos != node.pos)
+//@   -- after unlinking, nobody points to the unlinked node, and only its former parent points to its child
+//@   assert exit: old(Has(tree, key)) ==> (forall x like tree.Root :: x.tr == tree && x != node ==> x.Left != node && x.Right != node)
+//@   assert exit: old(Has(tree, key)) && Ch(node) != nil ==> (forall x like tree.Root :: x.tr == tree && x != node && x != node.Parent ==> x.Left != Ch(node) && x.Right != Ch(node))
+//@   -- a red child that becomes the root is blackened: its black height grows by one
+//@   at exit: if old(Has(tree, key)) && node.Parent == nil && Ch(node) != nil && Ch(node).bh == 0 then Ch(node).bh := 1
+//@   -- the unlinked object leaves the in-order sequence: positions, intervals and ranks close up
+//@   at exit: if old(Has(tree, key)) then tree.nodes := \i => ite(i < node.pos, tree.nodes[i], tree.nodes[i+1])
+//@   at exit: if old(Has(tree, key)) then all Node.a := \x like tree.Root => ite(x.tr == tree && x.a > node.pos, x.a - 1, x.a)
+//@   at exit: if old(Has(tree, key)) then all Node.b := \x like tree.Root => ite(x.tr == tree && x.b >= node.pos, x.b - 1, x.b)
+//@   at exit: if old(Has(tree, key)) then all Node.pos := \x like tree.Root => ite(x.tr == tree && x.pos > node.pos, x.pos - 1, x.pos)
+//@   at exit: if old(Has(tree, key)) then node.tr := nil
+//@   at exit: if old(Has(tree, key)) then tree.n := tree.n - 1
+//@   at exit: if old(Has(tree, key)) then tree.rank := \k like key => ite(tree.Comparator(k, key) == 0, 0 - 1, ite(old(tree.rank[k]) > old(tree.rank[key]), old(tree.rank[k]) - 1, old(tree.rank[k])))
+//@   -- the entry sequence afterwards, position by position (everything about order, ranks and the map view follows from it)
+//@   assert exit: old(Has(tree, key)) ==> tree.n == old(tree.n) - 1 && (forall i :: 0 <= i && i < old(tree.rank[key]) ==> KeyAt(tree, i) == old(KeyAt(tree, i)) && ValAt(tree, i) == old(ValAt(tree, i)))
+//@   assert exit: old(Has(tree, key)) ==> (forall i :: old(tree.rank[key]) <= i && i < tree.n ==> KeyAt(tree, i) == old(KeyAt(tree, i+1)) && ValAt(tree, i) == old(ValAt(tree, i+1)))
+//@   assert exit: !old(Has(tree, key)) ==> tree.n == old(tree.n) && tree.nodes == old(tree.nodes) && tree.rank == old(tree.rank) && (forall i :: 0 <= i && i < tree.n ==> KeyAt(tree, i) == old(KeyAt(tree, i)) && ValAt(tree, i) == old(ValAt(tree, i)))
+//@   assert exit: forall x like tree.Root :: x.tr == tree ==> x != nil && x.a <= x.pos && x.pos <= x.b && 0 <= x.pos && x.pos < tree.n && tree.nodes[x.pos] == x
+//@   assert exit: forall x like tree.Root :: x.tr == tree ==> (x.Left == nil ==> x.a == x.pos)
+//@   assert exit: forall x like tree.Root :: x.tr == tree ==> (x.Left != nil ==> x.Left.tr == tree && x.Left.Parent == x && x.Left.a == x.a && x.Left.b == x.pos - 1)
+//@   assert exit: forall x like tree.Root :: x.tr == tree ==> (x.Right == nil ==> x.b == x.pos)
+//@   assert exit: forall x like tree.Root :: x.tr == tree ==> (x.Right != nil ==> x.Right.tr == tree && x.Right.Parent == x && x.Right.a == x.pos + 1 && x.Right.b == x.b)
+//@   assert exit: forall x like tree.Root :: x.tr == tree ==> (x.Parent == nil ==> x == tree.Root && x.a == 0 && x.b == tree.n - 1)
+//@   assert exit: forall x like tree.Root :: x.tr == tree ==> (x.Parent != nil ==> x.Parent.tr == tree && (x.Parent.Left == x || x.Parent.Right == x))
+//@   assert exit: forall x like tree.Root :: x.tr == tree ==> !x.dead
+//@   assert exit: forall x like tree.Root :: x.tr == tree ==> x.bh >= 0
+//@   assert exit: forall x like tree.Root :: x.tr == tree ==> x.bh == Col(x) + HB(x.Left)
+//@   assert exit: forall x like tree.Root :: x.tr == tree ==> x.bh == Col(x) + HB(x.Right)
+//@   assert exit: forall x like tree.Root :: x.tr == tree ==> RBok(x)
+//@   focus post:1.11* : pre:*, lemma:exit#*
+//@   focus post:1.12* : pre:*, lemma:exit#*
+//@   focus post:1.13* : pre:*, lemma:exit#*
+//@   focus post:map* : pre:*, lemma:exit#*
+//@   focus post:present* : pre:*, lemma:exit#*
+//@   focus post:absent* : pre:*, lemma:exit#*
 //@   ensures [C01 C02 C17] Inv(tree) && tree.Comparator == old(tree.Comparator)
 //@   ensures owners: forall x like tree.Root :: x.tr == old(x.tr) || (old(x.tr) == tree && x.tr == nil)
 //@   ensures [C01 C02] absent: !old(Has(tree, key)) ==> tree.size == old(tree.size) && tree.nodes == old(tree.nodes) && tree.rank == old(tree.rank)
@@ -448,6 +496,7 @@ package redblacktree
 //@     && (forall i :: 0 <= i && i < old(tree.rank[key]) ==> KeyAt(tree, i) == old(KeyAt(tree, i)) && ValAt(tree, i) == old(ValAt(tree, i)))
 //@     && (forall i :: old(tree.rank[key]) <= i && i < tree.size ==> KeyAt(tree, i) == old(KeyAt(tree, i+1)) && ValAt(tree, i) == old(ValAt(tree, i+1)))
 //@   ensures [C01] map: forall k like key :: (Has(tree, k) <==> old(Has(tree, k)) && tree.Comparator(k, key) != 0) && (Has(tree, k) ==> Val(tree, k) == old(Val(tree, k)))
+//@   ensures [C07] internal colours: CInv(tree)
 
 // ---- JSON (C11 round trip, C12 replace / sound / atomic) ----
 
@@ -514,6 +563,8 @@ package redblacktree
 
 // ---- deletion fix-up (colour layer, C07; nil-safety of the sibling accesses, C17) ----
 
+//@ -- the only child (if any) of a node that has at most one
+//@ pred Ch(v) := ite(v.Right == nil, v.Left, v.Right)
 //@ pred Sib(v) := ite(v == v.Parent.Left, v.Parent.Right, v.Parent.Left)
 //@ -- before: the subtree of v is one black short as seen from v's parent (and v may be red under a red parent)
 //@ pred DPre(t, v) := v != nil && v.tr == t && (forall x like t.Root :: x.tr == t ==> x.bh >= 0)
@@ -615,3 +666,13 @@ package redblacktree
 //@   ensures same: Same(tree)
 //@   ensures [C07] internal done: DPost(tree, node)
 //@   ensures untouched: Untouched(tree, node)
+
+//@ -- the right-most node of a subtree holds the subtree's last position
+//@ func Node.maximumNode
+//@   requires node != nil ==> node.tr != nil && Shape(node.tr)
+//@   modifies nothing
+//@   ensures node == nil ==> result == nil
+//@   ensures node != nil ==> result != nil && result.tr == node.tr && result.Right == nil && result.pos == node.b && result.b == node.b && node.a <= result.a
+//@   loop 1:
+//@     invariant node != nil && node.tr == node0.tr && node.b == node0.b && node0.a <= node.a
+//@     decreases node.b - node.a
